@@ -359,17 +359,19 @@ func (d *faultDB) DeletePrefix(prefix []byte) (int, error) {
 	}
 	return d.Database.DeletePrefix(prefix)
 }
+
+// SetMany: the REAL database's SetMany, fault points in the item callback (see faultTxn.SetMany)
 func (d *faultDB) SetMany(prefix []byte, n int, next func(int) (basedb.Obj, error)) error {
-	for i := 0; i < n; i++ {
+	return d.Database.SetMany(prefix, n, func(i int) (basedb.Obj, error) {
 		o, err := next(i)
 		if err != nil {
-			return err
+			return o, err
 		}
-		if err := d.Set(prefix, o.Key, o.Value); err != nil {
-			return err
+		if err := d.c.write(classify(prefix, o.Key, false)); err != nil {
+			return basedb.Obj{}, err
 		}
-	}
-	return nil
+		return o, nil
+	})
 }
 
 type faultTxn struct {
@@ -384,17 +386,20 @@ func (t *faultTxn) Set(prefix, key, value []byte) error {
 	}
 	return t.Txn.Set(prefix, key, value)
 }
+
+// SetMany runs the REAL transaction's SetMany (the code under test builds the keys and stores the items); the fault
+// point of item i sits in the item callback, i.e. in front of the i-th write of the batch.
 func (t *faultTxn) SetMany(prefix []byte, n int, next func(int) (basedb.Obj, error)) error {
-	for i := 0; i < n; i++ {
+	return t.Txn.SetMany(prefix, n, func(i int) (basedb.Obj, error) {
 		o, err := next(i)
 		if err != nil {
-			return err
+			return o, err
 		}
-		if err := t.Set(prefix, o.Key, o.Value); err != nil {
-			return err
+		if err := t.c.write(classify(prefix, o.Key, false)); err != nil {
+			return basedb.Obj{}, err
 		}
-	}
-	return nil
+		return o, nil
+	})
 }
 func (t *faultTxn) Delete(prefix, key []byte) error {
 	if err := t.c.write(classify(prefix, key, true)); err != nil {
